@@ -188,6 +188,13 @@ class Repo(object):
                         with open(os.path.join(sd, fn), "r", encoding="utf-8") as f:
                             self.schema_texts[fn] = f.read()
                     self.files_read.append(os.path.join(SCHEMA_DIR, fn))
+        # schema files that exist only in an in-memory patch
+        for rel in sorted(self.overrides):
+            if rel.startswith(SCHEMA_DIR + "/") and rel.endswith(".sql"):
+                fn = rel[len(SCHEMA_DIR) + 1:]
+                if fn not in self.schema_texts and self.overrides[rel] is not None:
+                    self.schema_texts[fn] = self.overrides[rel]
+                    self.files_read.append(rel)
         self.protocol_doc = None
         pd = os.path.join(self.root, PROTOCOL_DOC)
         if os.path.exists(pd):
@@ -209,6 +216,24 @@ class Repo(object):
                 if cn in self.classes:
                     raise AnalysisError("duplicate class name %s" % cn)
                 self.classes[cn] = (m, cd)
+        # mixins are flattened: a method inherited from a base class of the
+        # package is a method of the inheriting class (qualified by its name),
+        # so that rules attribute what it does to the class whose objects run it
+        def _inherit(cn, seen=()):
+            m, cd = self.classes[cn]
+            for b in cd.get("bases", ()):
+                bn = b.split(".")[-1] if isinstance(b, str) else None
+                if not bn or bn == cn or bn in seen or bn not in self.classes:
+                    continue
+                _inherit(bn, seen + (cn,))
+                bm, bcd = self.classes[bn]
+                for name, fi in bcd["methods"].items():
+                    if name not in cd["methods"]:
+                        cd["methods"][name] = FuncInfo(fi.module, cn, fi.node)
+                for an, av in bcd.get("attrs", {}).items():
+                    cd["attrs"].setdefault(an, av)
+        for cn in list(self.classes):
+            _inherit(cn)
 
     # -- canonical class names ---------------------------------------------------
     def _canonicalise(self):
@@ -291,11 +316,21 @@ class Repo(object):
     def cls(self, name):
         return self.classes.get(name)
 
-    def method(self, cls, name):
+    def method(self, cls, name, _depth=0):
         ent = self.classes.get(cls)
         if not ent:
             return None
-        return ent[1]["methods"].get(name)
+        m = ent[1]["methods"].get(name)
+        if m is not None or _depth > 4:
+            return m
+        # inherited from a base class of the package (mixins), left to right
+        for b in ent[1].get("bases", ()):
+            bn = b.split(".")[-1] if isinstance(b, str) else None
+            if bn and bn != cls and bn in self.classes:
+                m = self.method(bn, name, _depth + 1)
+                if m is not None:
+                    return m
+        return None
 
     def function(self, module, name):
         return self.modules[module].functions.get(name)
